@@ -101,6 +101,10 @@ def audit(prop, tier):
                                  not_applicable=[dict(key=x['key'], reason=x.get('reason')) for x in pt['untranslatable']])
     for x in pt['proved']:
         thms.append(x['theorem'])
+    thms += pt.get('lifted', [])
+    res['structural_tie']['source_level_corollaries'] = pt.get('lifted', [])
+    if pt.get('lifted_skipped'):
+        res['structural_tie']['source_level_corollaries_not_checked_because'] = pt['lifted_skipped']
     for m_ in pt['modules']:
         if m_ not in modules:
             modules.append(m_)
